@@ -38,14 +38,16 @@ type Case struct {
 	Procs   int     `json:"procs"` // GOMAXPROCS for the parallel call (0: leave)
 
 	// ---- field ----
-	Api    string      `json:"api"` // AddFieldParallel | AddFieldParallel2
-	Cpu    int         `json:"cpu"` // cubesPerUnit
-	Fields []FieldSpec `json:"fields"`
-	Cuts2  []int       `json:"cuts2"`  // 2*cutoff for every marching comparison
-	March  bool        `json:"march"`  // also compare March / MarchParallel results
-	MAttrs []int       `json:"mattrs"` // attribute ids to march on
-	Reps   []int       `json:"reps"`   // GOMAXPROCS values of the repeated MarchParallel runs
-	NoSeq  bool        `json:"noseq"`  // race runs: skip the sequential reference
+	Api        string      `json:"api"` // AddFieldParallel | AddFieldParallel2
+	Cpu        int         `json:"cpu"` // cubesPerUnit
+	Fields     []FieldSpec `json:"fields"`
+	Cuts2      []int       `json:"cuts2"`      // 2*cutoff for every marching comparison
+	March      bool        `json:"march"`      // also compare March / MarchParallel results
+	MAttrs     []int       `json:"mattrs"`     // attribute ids to march on
+	Reps       []int       `json:"reps"`       // GOMAXPROCS values of the repeated MarchParallel runs
+	NoSeq      bool        `json:"noseq"`      // race runs: skip the sequential reference
+	Bits       bool        `json:"bits"`       // log triangle corners as IEEE bit patterns (real-valued fields)
+	MarchEvery bool        `json:"marchevery"` // march after every field, not only after the last
 }
 
 const scanAttr = "attr20"
